@@ -542,7 +542,7 @@ class Runner(IOOpsMixin):
     def _cfg_summary(self, w):
         s = w["settings"]
         mg = s["elast"]["settings"]["mode_gamma"]
-        q = s["qha"]["settings"]
+        q = W.effective_qha(w)          # keys the settings file leaves out take the documented defaults
         dt = float(q["DT"])
         return {"interpolator": mg["interpolator"], "order": mg.get("order", 3),
                 "system": w["static"]["system"], "DT": dt, "T_MIN": q["T_MIN"], "NT": q["NT"], "NTV": q["NTV"],
